@@ -42,7 +42,8 @@ def _case(draw):
         m = draw(gen.model_big())
     o = draw(gen.solve_options(solvers=("CLARABEL",), allow_drh=(kind != "big")))
     o["verbose"] = draw(st.sampled_from([0, 0, 1]))
-    return {"instrs": m["instrs"], "opts": o, "tags": m["meta"]["tags"], "cls": m["meta"]["cls"], "kind": kind}
+    return {"instrs": m["instrs"], "opts": o, "tags": m["meta"]["tags"], "cls": m["meta"]["cls"], "kind": kind,
+            "scale": draw(st.sampled_from([1, 1, 1, 25, 400]))}
 
 
 def strategy(tier):
@@ -137,12 +138,21 @@ def side_checks(ctx, env, res, opts, side, k):
         ctx.fail("%s:dual-value-not-identity-constant" % side, "returned %.12g, identity constant %.12g" % (res, cert["const"]))
     if opts.get("ret") == "primal" and abs(res - primal) > 1e-9 * (1 + abs(primal)):
         ctx.fail("%s:primal-return-not-objective" % side, "returned %.12g, objective evaluates to %.12g" % (res, primal))
+    if opts.get("drh") and ok:
+        # the heuristic may lose at most tol_dimension_reduction on the objective, on either back-end
+        ctx.observe("%s:primal_shortfall/tol_dr" % side, (cert["const"] - primal) / opts.get("tol_dr", 1e-4))
+        if primal < cert["const"] - opts.get("tol_dr", 1e-4) - 5 * k * (1 + abs(cert["const"])):
+            ctx.fail("%s:primal-below-stated-tolerance" % side,
+                     "after %s the primal value %.9g is more than tol_dimension_reduction=%g below the bound %.9g"
+                     % (opts["drh"], primal, opts.get("tol_dr", 1e-4), cert["const"]))
     return {"dual": cert["const"] if ok else None, "primal": primal, "rows": len(lc), "lmis": len(ll)}
 
 
 def check_case(case, ctx):
+    from vf.checks.c14 import scaled
     opts = case["opts"]
     k = oracles.TOL["CLARABEL"]
+    case = dict(case, instrs=scaled(case["instrs"], case.get("scale", 1)))
     envc, resc, excc = solve_side(case["instrs"], opts, "cvxpy")
     if excc is not None:
         if type(excc).__name__ == "SolverError" or opts.get("drh"):
